@@ -70,7 +70,7 @@ func VerifC17Ops() {
 
 	all := []command.SeqRange{{Begin: 1, End: 0}}
 	var err error
-	op := vsymChoice("op", 5)
+	op := vsymChoice("op", 6)
 	switch op {
 	case 0:
 		if nA == 0 {
@@ -92,6 +92,14 @@ func VerifC17Ops() {
 	case 4:
 		name := []string{"x", "x/y", "x/y/z", "A/q/r"}[vsymChoice("createName", 4)]
 		err = st.Create(ctx, name)
+	case 5: // RENAME below parents that do not exist yet (they are created), also of INBOX (a new mailbox is created)
+		from := []string{"B", "INBOX"}[vsymChoice("renameFrom", 2)]
+		if from == "INBOX" {
+			w.db.AddBox("INBOX", "mb-inbox", 9)
+			vsymAssume(uint32(len(w.db.Boxes)) <= maxMbox)
+			boxes0, msgs0, per0 = verifDigest(w.db)
+		}
+		err = st.Rename(ctx, from, []string{"y", "p/y", "p/q/y"}[vsymChoice("renameTo", 3)])
 	}
 	boxes1, msgs1, per1 := verifDigest(w.db)
 	if err == nil {
